@@ -287,13 +287,25 @@ func (s *SpokFile) run(stream iostream.IOStream, runner shell.Runner, force bool
 		case force || len(toHash) == 0 || cachedDigest == "" || currentDigest != cachedDigest:
 			// The task was forced, has no file dependencies (so always runs), has never succeeded
 			// or its dependencies have changed, in which case the action to be taken is the same
+			if cachedDigest != "" {
+				// The digest on disk describes a success this run is about to supersede, so it is
+				// forgotten there before any command runs: if spok is killed part way through, the
+				// task must not be left looking up to date with files it has since been run against.
+				// Whatever the bookkeeping below decides is written back when the run ends
+				cachedState.Set(taskToRun.Name, "")
+				cacheChanged = true
+				if err := cachedState.Dump(cachePath); err != nil {
+					return nil, err
+				}
+			}
+
 			result, err = taskToRun.Run(runner, stream, s.Env())
 			if err != nil {
 				// One of the commands could not be run at all, the ones before it still count:
 				// if any of them failed on the very files the digest describes, it goes (as below)
-				if !result.Ok() && cachedDigest != "" && currentDigest == cachedDigest {
-					cachedState.Set(taskToRun.Name, "")
-					cacheChanged = true
+				// otherwise nothing about the task's last success has changed
+				if result.Ok() || currentDigest != cachedDigest {
+					cachedState.Set(taskToRun.Name, cachedDigest)
 				}
 				return nil, fmt.Errorf("Task %q encountered an error: %w", taskToRun.Name, err)
 			}
@@ -313,8 +325,8 @@ func (s *SpokFile) run(stream iostream.IOStream, runner shell.Runner, force bool
 			case currentDigest == cachedDigest:
 				newDigest = ""
 			}
+			cachedState.Set(taskToRun.Name, newDigest)
 			if newDigest != cachedDigest {
-				cachedState.Set(taskToRun.Name, newDigest)
 				cacheChanged = true
 			}
 
